@@ -43,7 +43,7 @@ from typing import Any, Iterator
 SHAPES = ('single:A', 'single:B', 'blockdiag', 'blockdict', 'method:B', 'expr:AB', 'expr:A2', 'comp:A', 'neg:B', 'nested')
 MODES = ('eager', 'jit', 'fjit', 'jarg')
 APPLY_FAULTS = (None, 'seam-mem', 'seam-rt', 'stdout')
-ROUNDTRIPS = ('flatten', 'reduce', 'compose-reduce', 'pair-reduce')
+ROUNDTRIPS = ('flatten', 'reduce', 'compose-reduce', 'pair-reduce', 'transpose')
 SLEEPS = (0, 0, 0.001, 0.01, 0.5, 1, 10, 60)
 RAISES_EXC = ('exc', 'exc', 'value', 'key', 'timeouterr', 'mem')
 RAISES_BASE = ('base', 'base', 'genexit', 'genexit', 'kbd', 'sysexit', 'cancelled')
@@ -184,6 +184,9 @@ def gen_swarm(rng: random.Random, profile: dict) -> dict:
         'budget': rng.randint(4, 40 if not heavy else 24) if (heavy or rng.random() < 0.97) else rng.randint(80, 160),
         # 'tower': one actor is a chain of 10-40 nested blocks unwound by one exception ("any depth")
         'tower': (not heavy) and rng.random() < 0.04,
+        # 'hoard': one actor creates 20-50 inverses, each under its own configuration, then goes back to
+        # the oldest ones (bounded caches / tables of captured states, recycled ids)
+        'hoard': rng.random() < 0.04,
         'heavy': heavy,
         'fine': fine,
         # a third of the fine runs pre-empt between bytecodes instead of between lines
@@ -273,6 +276,44 @@ class _Gen:
                 kw[name] = rng.choice(['E', 'P', 'E', 'P', 'Y', 'PY', 'S', 'S', 'Z']) if heavy else rng.choice(['E', 'P', 'S', 'Z'])
         return kw
 
+    def hoard(self) -> list:
+        rng = self.rng
+        heavy = self.sw['heavy']
+        n = rng.randint(20, 50) if not heavy else rng.randint(18, 26)
+        body: list = []
+        for _ in range(n):
+            self.uid += 1
+            kw = self.kw()
+            if heavy and 'solver' in kw:
+                kw['solver'] = rng.choice(['cg40', 'cg41', 'cg500'])  # keep compiles bounded
+            body.append(['BLOCK', self.uid, kw, [['CREATE', rng.choice(['single:A', 'single:B'])]]])
+            if self.task and rng.random() < 0.1:
+                body.append(['SLEEP', 0])
+        for k in range(rng.randint(3, 8)):
+            # own handles from the oldest: -n is the first one created
+            idx = -(n - rng.randint(0, min(5, n - 1)))
+            body.append(['ROUNDTRIP', idx, rng.choice(['flatten', 'reduce', 'transpose'])])
+            if heavy:
+                body.append(['APPLY', idx, 'eager', None])
+        return body
+
+    def siblings(self, depth: int) -> list:
+        """Two inverses whose configurations differ in one setting only, applied through one and the same
+        jitted function (shared traces keyed on the operator's static part)."""
+        rng = self.rng
+        self.uid += 1
+        outer_uid = self.uid
+        self.uid += 1
+        inner_uid = self.uid
+        shape = rng.choice(['single:A', 'single:B', 'expr:AB'])
+        one = rng.choice([{'options': rng.choice(['P', 'Y', 'S', 'Z'])}, {'throw': False}, {'solver': rng.choice(['cg40', 'cg41'])}, {'options': 'P'}])
+        mode = rng.choice(['fjit', 'jarg', 'fjit', 'jit'])
+        inner = ['BLOCK', inner_uid, one, [['CREATE', shape]]]
+        body = [['CREATE', shape], inner, ['APPLY', -2, mode, None], ['APPLY', -1, mode, None], ['APPLY', -2, mode, None]]
+        if rng.random() < 0.5:
+            return [['BLOCK', outer_uid, self.kw(), body]]
+        return body
+
     def tower(self) -> list:
         """A chain of nested blocks, reads on the way down, an exception at the bottom that is
         caught somewhere in the middle (or kills the actor), reads on the way up."""
@@ -305,6 +346,9 @@ class _Gen:
             budget -= cost
             if stmt is None:
                 continue
+            if isinstance(stmt, tuple) and stmt[0] == 'SPLICE':
+                out.extend(stmt[1])
+                continue
             out.append(stmt)
             if stmt[0] == 'SPAWN':
                 if rng.random() < 0.7:
@@ -334,6 +378,8 @@ class _Gen:
             w['CTXRUN'] = 0.7
         if heavy:
             w['APPLY'] = 4.0
+            if sw['jit'] and budget >= 6 and depth + 2 <= sw['depth'] + 1:
+                w['SIBLINGS'] = 0.8
         w['ROUNDTRIP'] = 0.8
         if 'raise_exc' in self.faults and (in_try or 'death' in self.faults):
             w['RAISE_exc'] = 0.5 + 0.5 * min(depth, 3)
@@ -361,6 +407,8 @@ class _Gen:
                 return ['BLOCK', uid, kw, self.body(depth + 1, inner, sync, in_try)], inner + 1
             finally:
                 self.kw_stack.pop()
+        if kind == 'SIBLINGS':
+            return ('SPLICE', self.siblings(depth)), 6
         if kind == 'READ':
             return ['READ'], 1
         if kind == 'CREATE':
@@ -451,6 +499,8 @@ def generate(seed: int, profile: dict | None = None) -> dict:
             gen.prebuilt = []
             if swarm['tower'] and i == 0:
                 programs.append(gen.tower())
+            elif swarm['hoard'] and i == 0:
+                programs.append(gen.hoard())
             else:
                 programs.append(gen.body(0, swarm['budget'], False, False, top=True))
     spec = {
